@@ -558,11 +558,13 @@ PRODUCT_GLOBS = {
     "plain": [None, None, "**", "*", "a/**", "**/*.txt", "a/b/*", "{a,b}/**", "**/{b,.h}/**", "a*/**", "?/b/*", "*/*", "**/b/*", "<*/>*.txt", "a/<b/:0,1>*"],
     "deep": [None, None, "**", "a/**/{f,g,h}", "**/c/*", "a/b/**", "**/g", "{a,b}/c/*", "**/b/**", "a/*/g", "*/c/**", "b/**/h", "<*/:1,2>g"],
     "links": [None, None, "**", "a/f*", "*/g", "b/*", "**/g", "a/*", "?/t*", "a/tob/**", "**/up/**"],
+    "faults": [None, None, "**", "*/*", "**/g", "z/**", "{a,z}/**", "l*/**", "*"],
 }
 PRODUCT_NEGS = {
     "plain": ["**/b/**", "b/**", "**/*.txt", "a/b", "**/{b}", "{a/**,**/y.txt}", "{**/b/**,**/b}", "{a/**,a}", "a/**", "**/a/*", "?/**", "<*/>", "**/d", ".h"],
     "deep": ["**/b/**", "b/**", "**/c/**", "**/{f,g}", "{**/c,**/c/**,**/g}", "a/b/**", "**/b", "{a/**,a}", "a/**", "**/a/*", "?/**", "<*/>", "**/g"],
     "links": ["**/tob/**", "a/**", "**/g", "b/**", "{a/up,a/up/**}", "**/up/**", "*/f", "dangling", "**/b/**", "lf"],
+    "faults": ["**/f", "z/**", "**/locked/**", "a/**", "**/deep", "dangling", "locked", "{z,z/**}", "?/**"],
 }
 PRODUCT_DEPTHS = [(-1, -1, None), (-1, -1, None), (1, -1, "from_min"), (-1, 2, "from_max"), (1, 2, "from_depths"), (2, 3, "from_depths"), (1, 3, "bounded"),
                   (2, -1, "bounded"), (-1, 1, "bounded"), (2, 2, "from_depths")]
@@ -580,7 +582,7 @@ def product_scenarios(rnd, count, first_sid, trees=("plain", "deep", "links")):
         h0 = {"nodes": nodes, "walk_from": index["root"]}
         paths = sorted(node_paths(dict(h0, follow=False)))
         g = rnd.choice(PRODUCT_GLOBS[tname])
-        follow = tname == "links" and rnd.random() < 0.6
+        follow = tname in ("links", "faults") and rnd.random() < 0.6
         if g is not None and follow and not g.startswith("*"):
             follow = rnd.random() < 0.5
         if g is not None and g.startswith("a/tob"):
